@@ -2,7 +2,7 @@
 from vf import Query
 from common import R_ASSUME
 
-UNITS = ['kit:kitfull.c', 'repo:lib/srfi/95/qsort.c', 'repo:bignum.c', 'kit:env.c', 'kit:libc_models.c']
+UNITS = ['kit:kitfull.c', 'repo:lib/srfi/95/qsort.c', 'repo:bignum.c', 'kit:env.c', 'kit:exc_models.c', 'kit:libc_models.c']
 UD = {'KIT_REAL_SEXP': 1}
 EXC = ['sexp_alloc_tagged_aux', 'sexp_type_exception', 'sexp_xtype_exception', 'sexp_range_exception', 'sexp_user_exception', 'sexp_user_exception_ls']
 FUNCTIONS = ['sexp_sort_x', 'sexp_merge_sort', 'sexp_merge_sort_less', 'sexp_object_compare', 'sexp_object_compare_op',
